@@ -312,6 +312,19 @@ func prop(c Case) error {
 	if err != nil || !bytes.Equal(data, first) {
 		return fmt.Errorf("geojson.Marshal with the same option slice a second time: %s, %v; the first time %s", clip(string(data)), err, clip(string(first)))
 	}
+	// the intermediate object kept across another digit-limited encoding of another
+	// geometry: what Encode returned must not change afterwards
+	kept, err := geojson.Encode(t, opts...)
+	if err != nil {
+		return fmt.Errorf("geojson.Encode: %v", err)
+	}
+	other := geom.NewLineStringFlat(geom.XY, []float64{123456.789, -98765.4321, 0.5, 1e-7, -2.25, 77})
+	if _, err := geojson.Marshal(other, geojson.EncodeGeometryWithMaxDecimalDigits(c.D), geojson.EncodeGeometryWithBBox()); err != nil {
+		return fmt.Errorf("geojson.Marshal of an ordinary line string: %v", err)
+	}
+	if keptData, err := json.Marshal(kept); err != nil || !bytes.Equal(keptData, first) {
+		return fmt.Errorf("the *Geometry returned by geojson.Encode, marshalled after another encoding: %s, %v; Marshal gave %s", clip(string(keptData)), err, clip(string(first)))
+	}
 	if !json.Valid(data) {
 		return fmt.Errorf("invalid JSON: %s", clip(string(data)))
 	}
